@@ -43,18 +43,24 @@ _GET_POS = ["if self._wildcard:\n    pos_args = []\n    for sym in reserved_fn_s
 _CALL = ["pos_args = self._get_pos_args(ctx)", "return self.fn(klong, *pos_args) if self._provide_klong else self.fn(*pos_args)"]
 _SCV = ["assert isinstance(sym, KGSym)", "if callable(v) and (not issubclass(type(v), KGLambda)):\n    x = KGLambda(v)\n    v = KGCall(x, args=None, arity=x.get_arity())", "d[sym] = v"]
 _SET_LOOP = "if k not in reserved_fn_symbols:\n    for d in self._context:\n        if in_map(k, d):\n            %s\n            return k"
-_WRAP = ["if self._sym is not None:\n    try:\n        current = self.klong._context[self._sym]\n        if isinstance(current, KGFn) and (not isinstance(current, KGCall)):\n"
-         "            if len(args) != current.arity:\n                raise RuntimeError(f'Klong function called with {len(args)} but expected {current.arity}')\n"
-         "            fn_args = [np.asarray(x) if isinstance(x, list) else x for x in args]\n            return self.klong.call(KGCall(current.a, [*fn_args], current.arity))\n"
-         "    except KeyError:\n        pass",
+_WRAP = ["if self._sym is not None:\n    try:\n        current = self.klong._context[self._sym]\n    except KeyError:\n        current = None\n"
+         "    if isinstance(current, KGFn) and (not isinstance(current, KGCall)):\n        if len(args) != current.arity:\n"
+         "            raise RuntimeError(f'Klong function called with {len(args)} but expected {current.arity}')\n"
+         "        fn_args = self._convert_args(args)\n        return self.klong.call(KGCall(current.a, [*fn_args], current.arity))",
          "if len(args) != self.fn.arity:\n    raise RuntimeError(f'Klong function called with {len(args)} but expected {self.fn.arity}')",
-         "fn_args = [np.asarray(x) if isinstance(x, list) else x for x in args]", "return self.klong.call(KGCall(self.fn.a, [*fn_args], self.fn.arity))"]
+         "fn_args = self._convert_args(args)", "return self.klong.call(KGCall(self.fn.a, [*fn_args], self.fn.arity))"]
+# only the symbol lookup is inside the try (067b203): a KeyError raised by the called function is not "symbol deleted"
+_CONVERT = ["backend = self.klong._backend", "return [KLONG_UNDEFINED if x is None else backend.kg_asarray(x) if isinstance(x, list) else x for x in args]"]
 
 
 _MERGE = ["if len(arr) == 0:\n    return arr", "if len(arr) == 1 or not has_none(arr[0]):\n    return arr[0]", "sparse_fa = np.empty(len(arr[0]), dtype=object)",
           "for n, a in enumerate(arr[0]):\n    sparse_fa[n] = a",
           "for fa in arr[1:]:\n    i = 0\n    for a in fa:\n        while i < len(sparse_fa) and sparse_fa[i] is not None:\n            i += 1\n"
           "        if i >= len(sparse_fa):\n            break\n        sparse_fa[i] = a\n        i += 1", "return sparse_fa"]
+
+
+_EF_FINALLY = "try:\n    return f(self, self._context) if issubclass(type(f), KGLambda) else self.call(f)\nfinally:\n    self._context.pop()"
+_EF_PLAIN = ["r = f(self, self._context) if issubclass(type(f), KGLambda) else self.call(f)", "self._context.pop()", "return r"]
 
 
 def _body(fn):
@@ -105,6 +111,7 @@ def generate():
         ok = ok and ast.unparse(astlib.module_assign(m, "reserved_fn_args")) == "['x', 'y', 'z']"
         ok = ok and ast.unparse(astlib.module_assign(m, "reserved_fn_symbols")) == "[KGSym(n) for n in reserved_fn_args]"
         ok = ok and _body(astlib.find_func(astlib.find_class(m, "KGFnWrapper"), "__call__")) == _WRAP
+        ok = ok and _body(astlib.find_func(astlib.find_class(m, "KGFnWrapper"), "_convert_args")) == _CONVERT
         ok = ok and _body(astlib.find_func(i, "set_context_var")) == _SCV
         ctx = astlib.find_class(i, "KlongContext")
         sb = _body(astlib.find_func(ctx, "__setitem__"))
@@ -121,11 +128,24 @@ def generate():
         ef = _body(astlib.find_func(ki, "_eval_fn"))
         need = ["if (0 if f_args is None else len(f_args)) < f_arity or has_none(f_args):\n    return x",
                 "ctx = {} if f_args is None else {reserved_fn_symbol_map[p]: self.call(q) for p, q in zip(reserved_fn_args, f_args)}",
-                "self._context.push(ctx)",
-                "try:\n    return f(self, self._context) if issubclass(type(f), KGLambda) else self.call(f)\nfinally:\n    self._context.pop()"]
+                "self._context.push(ctx)"]
         pos = [ef.index(s) if s in ef else -1 for s in need]
-        ok = ok and all(p >= 0 for p in pos) and pos == sorted(pos) and pos[-1] == len(ef) - 1 and pos[-2] == len(ef) - 2
+        ok = ok and all(p >= 0 for p in pos) and pos == sorted(pos)
+        tail = ef[pos[-1] + 1:] if pos[-1] >= 0 else None
+        ok = ok and tail in ([_EF_FINALLY], _EF_PLAIN)
         return ok
+
+    def pops_in_finally():
+        ki = astlib.find_class(astlib.module("klongpy/interpreter.py"), "KlongInterpreter")
+        ef = _body(astlib.find_func(ki, "_eval_fn"))
+        if "self._context.push(ctx)" not in ef:
+            raise ShapeError("_eval_fn: no push")
+        tail = ef[ef.index("self._context.push(ctx)") + 1:]
+        if tail == [_EF_FINALLY]:
+            return True
+        if tail == _EF_PLAIN:
+            return False
+        raise ShapeError("_eval_fn: call/pop has neither known shape")
 
     def merge_shape():
         m = astlib.module("klongpy/types.py")
@@ -149,6 +169,7 @@ def generate():
     flag("setitem_wraps_existing", wraps)
     flag("interop_shape_ok", shape)
     flag("merge_projections_positional", merge_shape)
+    flag("eval_fn_pops_in_finally", pops_in_finally)
     flag("import_follows_wrapped", follow)
     for n in notes:
         out.append("(* shape not recognised: %s *)" % n)
@@ -173,11 +194,13 @@ class World:
         self.fns = {}          # pid -> python function
         self.by_obj = {}
 
-    def make(self, pid, sig, klong=False):
+    def make(self, pid, sig, klong=False, boom=None):
         params = (["klong"] if klong else []) + list(sig)
-        src = "def f%d(%s):\n    log.append((%d, (%s)))\n    return TOK + len(log) - 1\n" % (
-            pid, ", ".join(params), pid, "".join(p + ", " for p in sig))
-        g = {"log": self.log, "TOK": TOK}
+        src = ("def f%d(%s):\n    log.append((%d, (%s)))\n    if BOOM is not None and any(type(a_) in (int, np.int64) and a_ == BOOM for a_ in (%s)):\n"
+               "        raise ValueError('boom')\n    return TOK + len(log) - 1\n") % (
+            pid, ", ".join(params), pid, "".join(p + ", " for p in sig), "".join(p + ", " for p in sig))
+        import numpy as np
+        g = {"log": self.log, "TOK": TOK, "BOOM": boom, "np": np}
         exec(src, g)
         fn = g["f%d" % pid]
         self.fns[pid] = fn
@@ -193,7 +216,9 @@ class World:
                 pid, args = self.log[v - TOK]
                 return ["pyres", pid] + [self.canon(a) for a in args]
             return ["i", v]
-        if isinstance(v, str) and not isinstance(v, KGSym):
+        if isinstance(v, KGSym):
+            return ["sym", SYMS.get(str(v), 99)]
+        if isinstance(v, str):
             return ["s"] + [ord(c) for c in v]
         if isinstance(v, np.ndarray):
             if v.ndim == 0:
@@ -229,10 +254,15 @@ def lit(v):
         return '"' + "".join(chr(c) for c in v[1:]) + '"'
     if v[0] == "l":
         return "[" + " ".join(lit(x).strip("()") for x in v[1:]) + "]"
+    if v[0] == "sym":
+        return ":" + [k_ for k_, n_ in SYMS.items() if n_ == v[1]][0]
     raise ValueError(v)
 
 
 def pyarg(v):
+    if v[0] == "sym":
+        from klongpy.core import KGSym
+        return KGSym([k_ for k_, n_ in SYMS.items() if n_ == v[1]][0])
     if v[0] == "i":
         return v[1]
     if v[0] == "s":
@@ -240,8 +270,10 @@ def pyarg(v):
     return [pyarg(x) for x in v[1:]]
 
 
-ARGS = [["i", 1], ["i", 2], ["i", 0], ["i", -4], ["s", 97, 98], ["s"], ["l", ["i", 1], ["i", 2]], ["l", ["s", 97], ["i", 3]], ["i", 12]]
-SCALARS = [["i", 1], ["i", 2], ["i", 5], ["i", -4], ["s", 97, 98], ["s", 99]]
+# symbols share the name space of variables: sa is bound in the known-finding replay only, qq / qr never
+SYMS = {"sa": 40, "qq": 41, "qr": 42}
+ARGS = [["i", 1], ["i", 2], ["i", 0], ["i", -4], ["s", 97, 98], ["s"], ["l", ["i", 1], ["i", 2]], ["l", ["s", 97], ["i", 3]], ["i", 12], ["sym", 41]]
+SCALARS = [["i", 1], ["i", 2], ["i", 5], ["i", -4], ["s", 97, 98], ["s", 99], ["sym", 42]]
 
 
 def params_sx(sig, klong):
@@ -459,14 +491,15 @@ def opt(a=None, b=None):  return _rec(18, tuple(v for v in (a, b) if v is not No
 def many(a, b, c, d):     return _rec(19, (a, b, c, d))
 @traced
 def dk3(klong, x, y, z):  return _rec(20, (x, y, z))
+def po(a, /, b):          return _rec(21, (a, b))
 
-IDS = dict(p0=1, p1=2, p2=3, p3=4, k0=5, k1=6, k2=7, k3=8, dp0=9, dp1=10, dp2=11, dp3=12, dk1=13, dk2=14, q2=15, kwo=16, va=17, opt=18, many=19, dk3=20)
+IDS = dict(p0=1, p1=2, p2=3, p3=4, k0=5, k1=6, k2=7, k3=8, dp0=9, dp1=10, dp2=11, dp3=12, dk1=13, dk2=14, q2=15, kwo=16, va=17, opt=18, many=19, dk3=20, po=21)
 klongpy_exports = {n: globals()[n] for n in IDS}
 klongpy_exports["calls"] = calls
 ''' % TOK
 
 IN_DOMAIN = {"p0": 0, "p1": 1, "p2": 2, "p3": 3, "k0": 0, "k1": 1, "k2": 2, "k3": 3, "dp0": 0, "dp1": 1, "dp2": 2, "dp3": 3, "dk1": 1, "dk2": 2,
-             "q2": 2, "kwo": 1, "dk3": 3}
+             "q2": 2, "kwo": 1, "dk3": 3, "po": 2}
 OTHERS = {"va": None, "opt": None}      # wildcard by design: modelled, not judged by the property text
 
 
@@ -530,6 +563,10 @@ def module_cases(rng, tier, workdir):
             if ar == 2:
                 acc = ["pyres", iid, vals[0], vals[1]]
                 forms.append(("over", ["over"] + vals, "%s/[11 22 33]" % fname, [[iid, vals[0], vals[1]], [iid, acc, vals[2]]], ["val", ["pyres", iid, acc, vals[2]]]))
+            if ar >= 1:
+                # one argument short (modelled, not judged): a KGLambda stored directly is called all the same and reads the
+                # missing slot from an enclosing frame, or raises KeyError at top level
+                forms.append(("under", ["direct"] + a[:-1], "%s(%s)" % (fname, ";".join(lit(x) for x in a[:-1])), None, None))
             for form, mform, text, wl, wr in forms:
                 for inside in (False, True):
                     pre = ["prj::%s(%s;)" % (fname, ";".join(lit(x) for x in a[:-1]))] if form == "proj" else []
@@ -539,7 +576,7 @@ def module_cases(rng, tier, workdir):
                         frames.append([[0, ["data", ["i", 7]]], [1, ["data", ["i", 8]]], [2, ["data", ["i", 9]]]])
                     frames.append([])
                     req = sx(["iform", frames, items[fname], 5, mform])
-                    out.append((w, fname, iid, pre + [stmt], req, (wl, wr) if judged else None, how, form, inside))
+                    out.append((w, fname, iid, pre + [stmt], req, (wl, wr) if (judged and wl is not None) else None, how, form, inside))
         out.append((w, "many", items["many"][1], [], sx(["iform", ["frames", []], items["many"], 5, ["direct"]]), None, how, "register", False))
     return out
 
@@ -556,6 +593,148 @@ def run_module_case(case):
     except Exception:  # noqa
         res = ["err"]
     return {"reg": registered(w, fname, iid), "res": res, "log": w.logs_from(start)}
+
+
+# ------------------------------------------------------------------------------------------------ part A3: raising callables, wrong counts, stores from inside a call
+OUTER = [[0, ["data", ["i", 7]]], [1, ["data", ["i", 8]]], [2, ["data", ["i", 9]]]]
+
+
+def depth(w):
+    return len(w.k._context._context)
+
+
+def raising_cases(rng, tier):
+    """callable raising when it receives BOOM: direct / each / over, top level and inside a function"""
+    out = []
+    BOOM = 13
+    for sig in SIGS:
+        n = len(sig)
+        if n == 0:
+            continue
+        for klong in (False, True):
+            for inside in (False, True):
+                forms = ["direct"] + (["each"] if n == 1 else []) + (["over"] if n == 2 else [])
+                for form in forms:
+                    w = World()
+                    w.k["pa"] = w.make(1, sig, klong, boom=BOOM)
+                    if form == "direct":
+                        a = [["i", rng.choice([1, 2, 5])] for _ in range(n)]
+                        a[rng.randrange(n)] = ["i", BOOM]
+                        text = "pa(%s)" % ";".join(lit(x) for x in a)
+                        mform = ["direct"] + a
+                        want_log = [[1] + a]
+                    elif form == "each":
+                        pre = [["i", rng.choice([1, 2, 5])] for _ in range(rng.randint(0, 3))]
+                        post = [["i", rng.choice([1, 2, BOOM])] for _ in range(rng.randint(0, 2))]
+                        a = pre + [["i", BOOM]] + post
+                        text = "pa'[%s]" % " ".join(lit(x) for x in a)
+                        mform = ["each"] + a
+                        want_log = [[1, x] for x in pre + [["i", BOOM]]]
+                    else:
+                        k_ = rng.randint(1, 3)
+                        a = [["i", rng.choice([1, 2, 5])] for _ in range(k_)] + [["i", BOOM]] + [["i", 2]]
+                        text = "pa/[%s]" % " ".join(lit(x) for x in a)
+                        mform = ["over"] + a
+                        want_log, acc = [], a[0]
+                        for x in a[1:]:
+                            want_log.append([1, acc, x])
+                            if x == ["i", BOOM]:
+                                break
+                            acc = ["pyres", 1, acc, x]
+                    if inside:
+                        text = "{0;%s}(7;8;9)" % text
+                    d0 = depth(w)
+                    try:
+                        r = w.k(text)
+                        res = ["val", w.canon(r)]
+                    except ValueError:
+                        res = ["err"]
+                    except Exception as e:  # noqa
+                        res = ["err", type(e).__name__]
+                    leaked = depth(w) - d0
+                    try:
+                        after = w.canon(w.k("x"))     # a leaked call frame would answer for the variable x
+                    except Exception:  # noqa
+                        after = ["exc"]
+                    frames = ["frames"] + ([OUTER] if inside else []) + [[[5, ["py", 1, params_sx(sig, klong), BOOM]]]]
+                    out.append({"kind": "raising", "text": [text], "sig": params_sx(sig, klong), "form": form, "inside": inside,
+                                "impl_res": res, "impl_log": w.logs_from(0), "impl_depth": leaked, "x_after": after,
+                                "want_res": ["err"], "want_log": want_log, "req": sx(["form", frames, 5, mform])})
+    return out
+
+
+def count_cases(rng, tier):
+    """applications with fewer / more arguments than the callable declares (modelled, not judged by the property text)"""
+    out = []
+    for sig in SIGS:
+        n = len(sig)
+        for klong in (False, True):
+            for k_ in range(0, 4):
+                if k_ == n:
+                    continue
+                for inside in (False, True):
+                    w = World()
+                    w.k["pa"] = w.make(1, sig, klong)
+                    a = [["i", 11 * (i + 1)] for i in range(k_)]
+                    text = "pa(%s)" % ";".join(lit(x) for x in a)
+                    if inside:
+                        text = "{0;%s}(7;8;9)" % text
+                    try:
+                        res = ["val", w.canon(w.k(text))]
+                    except Exception:  # noqa
+                        res = ["err"]
+                    if res == ["val", ["callobj"]]:
+                        res = ["unapplied"]
+                    frames = ["frames"] + ([OUTER] if inside else []) + [[[5, ["py", 1, params_sx(sig, klong)]]]]
+                    out.append({"kind": "count", "text": [text], "sig": params_sx(sig, klong), "form": "count%d" % k_, "inside": inside,
+                                "impl_res": res, "impl_log": w.logs_from(0), "req": sx(["form", frames, 5, ["direct"] + a])})
+    return out
+
+
+def scoped_cases(rng, tier):
+    """klong[...] = v performed by a running Python callable (new name, existing global), read inside and after the return"""
+    out = []
+    for inside in (False, True):
+        for v in (["i", 3], ["s", 97, 98], ["l", ["i", 1], ["i", 2]]):
+            w = World()
+            seen = {}
+
+            def setter(klong, x, seen=seen, v=v):
+                klong["nv"] = pyarg(v)
+                seen["nv"] = klong["nv"]
+                klong["gv"] = x
+                seen["gv"] = klong["gv"]
+                seen["gv_prog"] = klong("gv")
+                return 0
+            w.k["gv"] = 1
+            w.k["setter"] = setter
+            w.k("{setter(x)}(10)" if inside else "setter(10)")
+            try:
+                nv_after = ["rb", ["data", w.canon(w.k["nv"])]]
+            except KeyError:
+                nv_after = ["rb", ["keyerror"]]
+            impl = [["done"], ["rb", ["data", w.canon(seen["nv"])]], ["done"], ["rb", ["data", w.canon(seen["gv"])]]] + \
+                   [["done"]] * (2 if inside else 1) + [nv_after, ["rb", ["data", w.canon(w.k["gv"])]]]
+            frames = ["frames", [[0, ["data", ["i", 10]]]]] + ([[[0, ["data", ["i", 10]]]]] if inside else []) + \
+                     [[[51, ["data", ["i", 1]]], [52, ["py", 9, ["klong", "x"]]]]]
+            steps = [["set", 50, ["data", v]], ["read", 50], ["set", 51, ["data", ["i", 10]]], ["read", 51]] + \
+                    [["pop", 0]] * (2 if inside else 1) + [["read", 50], ["read", 51]]
+            ok_prop = (w.canon(seen["nv"]) == v and w.canon(seen["gv"]) == ["i", 10] and w.canon(seen["gv_prog"]) == ["i", 10]
+                       and w.canon(w.k["gv"]) == ["i", 10])
+            out.append({"kind": "scoped", "text": ["setter(10) with klong['nv']=%r; klong['gv']=x inside" % (pyarg(v),)], "inside": inside,
+                        "impl": impl, "ok_prop": ok_prop, "req": sx(["scoped", frames] + steps)})
+    return out
+
+
+def symbol_finding():
+    """KNOWN FINDING replay: with sa::5, pa'[:sa :qq] hands the callable 5 instead of the symbol :sa"""
+    w = World()
+    w.k["pa"] = w.make(1, ["x"])
+    w.k("sa::5")
+    w.k("pa'[:sa :qq]")
+    frames = ["frames", [[5, ["py", 1, ["x"]]], [40, ["data", ["i", 5]]]]]
+    return {"impl_log": w.logs_from(0), "want_log": [[1, ["sym", 40]], [1, ["sym", 41]]],
+            "req": sx(["form", frames, 5, ["each", ["sym", 40], ["sym", 41]]]), "text": ["sa::5", "pa'[:sa :qq]"]}
 
 
 # ------------------------------------------------------------------------------------------------ part B: histories
@@ -616,7 +795,7 @@ def hist_case(rng, length, forced=None):
             bound[n] = ("kfn", kid, ar)
             add("%s::{%s}" % (nm, body), lambda nm=nm, body=body: w.k("%s::{%s}" % (nm, body)) and None, ["set", n, ["kfn", kid, ar]], ("done",))
         elif op == "del":
-            exp = ("done",) if n in bound else ("keyerror",)
+            exp = ("done",) if n in bound else ("unspecified",)     # deleting an unbound name: the property text is silent (model: KeyError)
             bound.pop(n, None)
             add("del klong[%r]" % nm, lambda nm=nm: w.k.__delitem__(nm), ["del", n], exp)
         elif op == "read":
@@ -822,6 +1001,36 @@ def sweep(chk, rng, tier, hist_count, hist_len):
     life = [("kfn", 5, 2), ("read", 5, None), ("wcall", 5, False), ("kfn", 5, 3), ("wcall", 5, False), ("wcall", 5, True), ("del", 5, None),
             ("wcall", 5, False), ("wcall", 5, True), ("data", 5, None), ("wcall", 5, False), ("call", 5, None), ("wcall", 5, False),
             ("kfn", 5, 1), ("wcall", 5, False), ("rbcall", 5, None)]
+    extra = raising_cases(rng, tier) + count_cases(rng, tier)
+    for c, mo in zip(extra, chk.run_model([c["req"] for c in extra])):
+        chk.count("evaluations")
+        chk.count(c["kind"] + "_cases")
+        chk.count("distinct_nontrivial")
+        if mo[0] != "ok":
+            raise RuntimeError("model rejected %r: %r" % (c["req"], mo))
+        if c["kind"] == "raising":
+            if (c["impl_res"] != c["want_res"] or c["impl_log"] != c["want_log"] or c["impl_depth"] != 0 or c["x_after"] != ["sym", 99]) and bad_prop is None:
+                bad_prop = {"kind": "arguments", "signature": "(" + ", ".join(c["sig"]) + ") raising on 13", "statements": c["text"], "call_form": c["form"],
+                            "inside_function_with_x_y_z_7_8_9": c["inside"], "call_log": sx(c["impl_log"]),
+                            "result": sx(c["impl_res"]) + " frames_left_on_scope_stack=%d x_afterwards=%s" % (c["impl_depth"], sx(c["x_after"])),
+                            "prescribed_log": sx(c["want_log"]), "prescribed_result": "(err) propagated once, scope stack restored"}
+            same = c["impl_res"][:1] == mo[1][:1] and c["impl_log"] == mo[2][1:] and c["impl_depth"] == mo[3][1]
+        else:
+            same = c["impl_res"] == mo[1] and c["impl_log"] == mo[2][1:]
+        if not same and bad_corr is None:
+            bad_corr = {"kind": c["kind"] + "-correspondence", "signature": "(" + ", ".join(c["sig"]) + ")", "statements": c["text"],
+                        "impl": sx([c["impl_res"], c["impl_log"]]), "model": sx(mo[1:])}
+    sc = scoped_cases(rng, tier)
+    for c, mo in zip(sc, chk.run_model([c["req"] for c in sc])):
+        chk.count("evaluations", len(c["impl"]))
+        chk.count("scoped_store_cases")
+        if mo[0] != "ok":
+            raise RuntimeError("model rejected %r: %r" % (c["req"], mo))
+        if not c["ok_prop"] and bad_prop is None:
+            bad_prop = {"kind": "history", "script": c["text"], "failing_step": 0, "statement": c["text"][0], "implementation": sx(c["impl"]),
+                        "prescribed": "values stored from inside the call read back at once and the global keeps its new value"}
+        if c["impl"] != mo[1:] and bad_corr is None:
+            bad_corr = {"kind": "scoped-store-correspondence", "script": c["text"], "inside": c["inside"], "impl": sx(c["impl"]), "model": sx(mo[1:])}
     hists = [hist_case(rng, 0, forced=life) for _ in range(3)] + [hist_case(rng, hist_len) for _ in range(hist_count)]
     mouts = chk.run_model([h["req"] for h in hists])
     for h, mo in zip(hists, mouts):
@@ -901,6 +1110,18 @@ def run(tier, replay=None):
         proof["ok"] = False
         proof["error"] = "forbidden declarations: %r" % hits
         proof["broken"] = hits[0]
+    sf = symbol_finding()
+    smo = chk.run_model([sf["req"]])[0]
+    chk.count("evaluations")
+    if sf["impl_log"] != sf["want_log"]:
+        if smo[0] == "ok" and smo[2][1:] == sf["impl_log"]:
+            chk.finding("C09-symbol-argument-reevaluated",
+                        "a symbol argument naming a bound variable is evaluated a second time: %s calls the callable with %s" % (" ; ".join(sf["text"]), sx(sf["impl_log"])),
+                        {"kind": "symbol-argument", "statements": sf["text"], "call_log": sx(sf["impl_log"]), "prescribed_log": sx(sf["want_log"])})
+        else:
+            chk.violation("symbol arguments: %s gives call log %s, neither the prescribed %s nor the model's %s"
+                          % (" ; ".join(sf["text"]), sx(sf["impl_log"]), sx(sf["want_log"]), sx(smo)),
+                          {"kind": "symbol-argument", "statements": sf["text"], "call_log": sx(sf["impl_log"])})
     hc, hl = (700, 10) if tier == "quick" else (6000, 16)
     bad_prop, bad_corr = sweep(chk, rng, tier, hc, hl)
     if bad_prop is None and (bad_corr is not None or not proof["ok"]):
